@@ -120,3 +120,69 @@ Definition C13_stop_target_scope_needed : Prop :=
     (exists bS, In bS canon /\ bnum bS = j_stop c) /\
     let res := stream_run c w ps merged_end merged forked in
     snd res = JStop /\ map (fun e => bnum (eblk e)) (fst res) = [run_start c w; run_start c w + 1] /\ run_start c w + 1 < j_stop c.
+
+(* ------------------------------------------------------------------ final blocks only with a stop block *)
+
+(* Final blocks only, from a block number, stop block S a block of the chain: a stream that ends with stop-block-reached
+   ended on the event that announces block S as final, and from the start point on it has delivered exactly the canonical
+   blocks up to block S itself, S last - each once, in order (C07_final_increasing) - whether S became final in the merged
+   files, in the hub's answer at the join or at the start, or live.  (Blocks below start may precede them when the stream
+   is live from the start and the hub's LIB is below start: C07_seamless_num_final.)  World hypotheses as there. *)
+Definition C13_stop_final_num : Prop :=
+  forall (U : list block) (c : jcfg) (w : world) (ps : list (N * N)) (merged_end : N) (canon forked : list block),
+    wf_b U = true -> lib_ok_b LNone U = true ->
+    hub_of_universe U c w ->
+    chain_ok canon -> incl canon U ->
+    let merged := filter (fun b => bnum b <? merged_end) canon in
+    eventual_tip c w canon ->
+    j_mode c = 0 -> j_filter c = 1 ->
+    0 < j_bundle c -> Forall (fun b => bnum b < file_bound) merged ->
+    let res := stream_run c w ps merged_end merged forked in
+    let start := run_start c w in
+    (exists b, In b canon /\ bnum b = start) ->
+    forall bS, In bS canon -> bnum bS = j_stop c ->
+    snd res = JStop ->
+    exists pre e, fst res = pre ++ [e] /\ eblk e = bS /\
+      from_num start (map eblk (fst res)) = seg_num start (j_stop c) canon.
+
+(* The same resumed from a cursor on a final canonical block L (cursor block = cursor LIB; hypotheses of
+   C07_seamless_cursor_final_full), stop block S a block of the chain above the cursor block: the stream that ends with
+   stop-block-reached has delivered exactly the canonical blocks above the cursor block up to block S itself, S last. *)
+Definition C13_stop_final_cursor : Prop :=
+  forall (U : list block) (c : jcfg) (w : world) (ps : list (N * N)) (merged_end : N) (canon forked : list block)
+         (cu : cursor) (L : block) (rest : list block),
+    wf_b U = true -> lib_ok_b LNone U = true ->
+    hub_of_universe U c w ->
+    chain_ok canon -> incl canon U ->
+    let merged := filter (fun b => bnum b <? merged_end) canon in
+    eventual_tip c w canon ->
+    j_mode c = 1 -> j_cursor c = Some cu -> j_filter c = 1 ->
+    0 < j_bundle c -> Forall (fun b => bnum b < file_bound) merged ->
+    on_final_block cu = true ->
+    from_num (rn (cu_lib cu)) canon = L :: rest -> bref L = cu_lib cu -> bref L = cu_blk cu ->
+    let res := stream_run c w ps merged_end merged forked in
+    forall bS, In bS canon -> bnum bS = j_stop c -> rn (cu_lib cu) < j_stop c ->
+    snd res = JStop ->
+    exists pre e, fst res = pre ++ [e] /\ eblk e = bS /\
+      map eblk (fst res) = seg_num (rn (cu_lib cu) + 1) (j_stop c) canon.
+
+(* ... and through a target cursor on a final canonical block (hypotheses of C07_seamless_target_final_full), the target cursor
+   not beyond the stop block (the scope of C13_stop_target): from the start block on exactly canon up to block S, S last. *)
+Definition C13_stop_final_target : Prop :=
+  forall (U : list block) (c : jcfg) (w : world) (ps : list (N * N)) (merged_end : N) (canon forked : list block)
+         (cu : cursor) (B : block),
+    wf_b U = true -> lib_ok_b LNone U = true ->
+    hub_of_universe U c w ->
+    chain_ok canon -> incl canon U ->
+    let merged := filter (fun b => bnum b <? merged_end) canon in
+    eventual_tip c w canon ->
+    j_mode c = 2 -> j_cursor c = Some cu -> j_filter c = 1 ->
+    0 < j_bundle c -> Forall (fun b => bnum b < file_bound) merged ->
+    In B canon -> bref B = cu_blk cu -> cu_lib cu = cu_blk cu ->
+    let res := stream_run c w ps merged_end merged forked in
+    let start := run_start c w in
+    (exists b, In b canon /\ bnum b = start) ->
+    forall bS, In bS canon -> bnum bS = j_stop c -> rn (cu_blk cu) <= j_stop c ->
+    snd res = JStop ->
+    exists pre e, fst res = pre ++ [e] /\ eblk e = bS /\
+      from_num start (map eblk (fst res)) = seg_num start (j_stop c) canon.
